@@ -5,6 +5,9 @@ import (
 )
 
 func registerExtra(p *Program) {
+	registerRegexp(p)
+	registerCodec(p)
+	registerProtoCodec(p)
 	I := p.intrinsics
 	storeData := func(m *Machine, ctxv Value, name string) *StoreData {
 		c, ok := ctxv.(*SymCtx)
